@@ -195,8 +195,8 @@ def native_target_dir():
 
 
 def run_kani(crate, harness, timeout=900, playback=False, extra=None, target_dir=None):
-    cmd = ['cargo', 'kani', '-Z', 'function-contracts', '-Z', 'stubbing', '--harness', harness['name'], '--exact'] if False else \
-          ['cargo', 'kani', '-Z', 'function-contracts', '-Z', 'stubbing', '--harness', harness['name']]
+    cmd = ['cargo', 'kani', '-Z', 'function-contracts', '-Z', 'stubbing', '-Z', 'restrict-vtable', '--harness', harness['name'], '--exact'] if False else \
+          ['cargo', 'kani', '-Z', 'function-contracts', '-Z', 'stubbing', '-Z', 'restrict-vtable', '--harness', harness['name']]
     if playback:
         cmd += ['-Z', 'concrete-playback', '--concrete-playback=print']
     if extra:
@@ -222,12 +222,12 @@ def run_kani(crate, harness, timeout=900, playback=False, extra=None, target_dir
     return {'timeout': False, 'rc': p.returncode, 'out': out, 'wall_s': time.time() - t0, 'cmd': ' '.join(cmd)}
 
 
-def native_replay(crate, relfile, unit_mod, vals, target_dir=None, timeout=900):
+def native_replay(crate, relfile, unit_mod, vals, target_dir=None, timeout=900, body='body'):
     """append a #[test] next to the harness module that runs the harness body on the verifier's concrete values,
     and run it natively against the same scratch copy of the real crate (cfg verif_replay)."""
     test = '\n#[cfg(all(test, verif_replay))]\nmod __verif_replay_test_%d {\n    #[test]\n    fn verif_replay() {\n' \
-           '        let mut src = crate::__verif_rt::Src::from(vec![%s]);\n        super::%s::body(&mut src);\n    }\n}\n' % (
-               int(time.time() * 1000) % 100000000, ', '.join('vec![%s]' % ', '.join(str(b) for b in v) for v in vals), unit_mod)
+           '        let mut src = crate::__verif_rt::Src::from(vec![%s]);\n        super::%s::%s(&mut src);\n    }\n}\n' % (
+               int(time.time() * 1000) % 100000000, ', '.join('vec![%s]' % ', '.join(str(b) for b in v) for v in vals), unit_mod, body)
     with open(os.path.join(crate, relfile), 'a') as f:
         f.write(test)
     env = dict(os.environ)
